@@ -69,6 +69,13 @@ def classify(v, T, plain_exc, field_exc):
         # a list/tuple of paths reaches a File member of a Union (or File element of a MultiInputObj) before the
         # member it was meant for: File(paths) raises FileNotFoundError, which coerce_union does not catch
         return "path-sequence-captured-by-file-member"
+    if "FileNotFoundError" in (plain_exc, field_exc):
+        for U, part in R.union_parts(v, T):
+            j = R.first_member(part, U)
+            if isinstance(part, str) and j and any(R.kind(m) == "set" and R.contains_atom(m, File) for m in R.targs(U)[:j]):
+                # the str belongs to a later union member, but an earlier set[...File...] member iterates it
+                # into characters (str -> Set is coercible) and File(char) raises FileNotFoundError
+                return "str-iterated-into-earlier-set-of-file-member"
     if plain_exc is None and field_exc is not None and R.tname(T) == "MultiInputObj[File]" and not isinstance(v, list):
         # make_converter puts ensure_list in front of the TypeParser for exactly this field type;
         # ensure_list wraps a tuple / set / dict whole
